@@ -128,16 +128,42 @@ def _const_text(o):
     return o.get('c') if isinstance(o, dict) and 'c' in o and 'cp' not in o and 'mv' not in o else None
 
 
+
+
+# ------------------------------------------------------------------ evaluation of the two character predicates (shape-independent)
+import mireval as ME
+EVAL_DOMAIN = sorted(set(range(0, 0x250)) | ME.WHITE_SPACE | {0x3042, 0x1F600, 0xFEFF, 0x200B})
+
+
+def _eval_char_pred(F, fn):
+    """{code point: bool} of a `fn(char) -> bool` of the workspace over EVAL_DOMAIN, or None when the evaluator cannot decide."""
+    try:
+        return {c: bool(ME.call(F, fn, [ME.char(c)])) for c in EVAL_DOMAIN}
+    except ME.Undecidable:
+        return None
+
+
+def _quoted_chars(F, h):
+    """(set of characters char_needs_quoting answers true for, fallback expression or None, how it was obtained)."""
+    pred = _char_predicate(h)
+    if pred is not None:
+        return pred[0], pred[1], 'literal-set match'
+    table = _eval_char_pred(F, QUOTE + 'char_needs_quoting')
+    if table is None:
+        return None
+    return {chr(c) for c, v in table.items() if v and c < 0x80}, None, 'evaluated on %d characters' % len(table)
+
+
 # ------------------------------------------------------------------ R1
 @RS.rule('C07.R1', 'K-CONST', "char_needs_quoting covers every character the lexer and the pattern parser treat specially; positional rules return true")
 def r1(cx):
     F = cx.F
     h = F.hir_of(QUOTE + 'char_needs_quoting')
     cx.fn(QUOTE + 'char_needs_quoting')
-    pred = _char_predicate(h)
-    cx.require(pred is not None, 'char_needs_quoting is not a literal-set match on its argument')
-    quoted, fallback = pred
-    cx.site('char_needs_quoting: %s' % ''.join(sorted(quoted)).encode('unicode_escape').decode())
+    pred = _quoted_chars(F, h)
+    cx.require(pred is not None, 'char_needs_quoting is neither a literal-set match on its argument nor evaluable')
+    quoted, fallback, how = pred
+    cx.site('char_needs_quoting (%s): %s' % (how, ''.join(sorted(quoted)).encode('unicode_escape').decode()))
     cx.cellcount(len(quoted))
     sources = {}
     # operator characters: first-level keys of the operator trie
@@ -222,6 +248,17 @@ def r1(cx):
         edges = true_edges_of(pred_)
         cx.site('str_needs_quoting: test "%s": %d positive edge(s)' % (label, len(edges)))
         if not edges:
+            # deleted, or written in a shape this rule does not read? If what the test needs is still mentioned by the function
+            # (the character / string constant, the predicate) the shape is not understood: no verdict rather than an alarm.
+            hs = F.hir_of(QUOTE + 'str_needs_quoting')
+            lits = {x.get('v') for x in H.walk(hs['body']) if x.get('k') == 'lit'} | _all_char_literals(hs)
+            mentions = {
+                'empty string': any((x.get('def') or '').endswith('::is_empty') or (x.get('def') or '').endswith('::next') for x in H.calls(hs['body'])),
+                'leading #': '#' in lits, 'leading ~': '~' in lits, ':~': ':~' in lits, '{ before }': '}' in lits, '[ before ]': ']' in lits,
+                'any special character': any(H.path_def(x) == QUOTE + 'char_needs_quoting' or x.get('def') == QUOTE + 'char_needs_quoting'
+                                             for x in H.walk(hs['body'])),
+            }
+            cx.require(not mentions.get(label), 'str_needs_quoting: the test for %s is written in a shape this rule does not read' % label)
             cx.violation(body.fn, 'positional-rule-missing:%s' % label, 'str_needs_quoting no longer tests for %s: such a string is '
                          'printed bare' % label, loc=body.loc(body.d))
             continue
@@ -254,12 +291,19 @@ def r1(cx):
 def r2(cx):
     F = cx.F
     h = F.hir_of(QUOTE + 'char_needs_quoting')
-    pred = _char_predicate(h)
-    cx.require(pred is not None, 'char_needs_quoting is not a literal-set match on its argument')
-    quoted, fallback = pred
+    pred = _quoted_chars(F, h)
+    cx.require(pred is not None, 'char_needs_quoting is neither a literal-set match on its argument nor evaluable')
+    quoted, fallback, how = pred
     cx.fn(QUOTE + 'char_needs_quoting')
     fb_ok = fallback is not None and fallback.get('k') == 'mcall' and fallback.get('def') == IS_WS and H.peel(fallback['recv']).get('k') == 'local'
-    cx.site('char_needs_quoting: fallback arm is %s' % ((fallback or {}).get('def') or (fallback or {}).get('k')))
+    if fallback is None:
+        # another shape: decide the agreement by evaluating both predicates on the same characters
+        qt, bt = _eval_char_pred(F, QUOTE + 'char_needs_quoting'), _eval_char_pred(F, IS_BLANK)
+        cx.require(qt is not None and bt is not None, 'char_needs_quoting / is_blank cannot be evaluated (shape not understood)')
+        bad = sorted(c for c in EVAL_DOMAIN if bt[c] and not qt[c])
+        fb_ok = not bad
+        cx.site('char_needs_quoting (%s) vs lex::is_blank: blanks left unquoted: %s' % (how, [hex(c) for c in bad] or 'none'))
+    cx.site('char_needs_quoting: fallback arm is %s' % ((fallback or {}).get('def') or (fallback or {}).get('k') or how))
     # what the lexer calls a blank
     hb = F.hir_of(IS_BLANK)
     cx.fn(IS_BLANK)
@@ -1169,6 +1213,18 @@ def r8(cx):
     fn = QUOTE + 'char_needs_quoting'
     body = F.inlined(F.body(fn))
     cx.fn(fn)
+    qt, bt = _eval_char_pred(F, fn), _eval_char_pred(F, IS_BLANK)
+    if qt is not None and bt is not None:
+        # both predicates evaluated on the same %d characters: the agreement itself, whatever the shape of the code
+        bad = sorted(c for c in EVAL_DOMAIN if (bt[c] or c == 0xA) and not qt[c])
+        cx.site('char_needs_quoting and lex::is_blank evaluated on %d characters (all below U+0250, every White_Space character): '
+                'token-delimiting blanks declared safe: %s' % (len(EVAL_DOMAIN), [hex(c) for c in bad] or 'none'))
+        cx.cellcount(len(EVAL_DOMAIN))
+        for c in bad:
+            cx.violation(fn, 'safe-without-lexer-blank-test', 'U+%04X delimits tokens for the lexer (is_blank) but char_needs_quoting answers '
+                         '"needs no quoting": a value containing it (`typeset v=ls<U+%04X>-l`) is printed bare and reads back as two words' % (c, c),
+                         loc='%s:%s' % (body.file, body.line))
+        return
     # the sibling: is_blank really is char::is_whitespace (minus the newline)
     ib = F.body(LEX + 'core::is_blank') if (LEX + 'core::is_blank') in F.bodies else None
     cx.require(ib is not None, 'the lexer predicate lex::core::is_blank was not found')
